@@ -64,7 +64,8 @@ func mirrorIPFIXDispatcher(ch chan IPFIXUDPMsg) {
 
 func mirrorIPFIX(dst net.IP, port int, ch chan IPFIXUDPMsg) error {
 	var (
-		packet = make([]byte, opts.IPFIXUDPSize)
+		// room for the largest payload plus the IP and UDP headers put in front of it
+		packet = make([]byte, opts.IPFIXUDPSize+mirror.IPv6HLen+mirror.UDPHLen)
 		msg    IPFIXUDPMsg
 		pLen   int
 		err    error
